@@ -105,8 +105,10 @@ func leanStr(s string) string {
 			b.WriteString("\\n")
 		case r == '\t':
 			b.WriteString("\\t")
-		case r < 32 || r > 126:
-			fmt.Fprintf(&b, "\\u{%x}", r)
+		case r < 32 || r == 127:
+			fmt.Fprintf(&b, "\\x%02x", r)
+		case r > 127 && r <= 0xffff:
+			fmt.Fprintf(&b, "\\u%04x", r)
 		default:
 			b.WriteRune(r)
 		}
